@@ -7,6 +7,6 @@ for d in seeded/*/; do
 import json,re,sys
 m=json.load(open('$d/meta.json'))
 print(' '.join(sorted({re.match(r'(C\d\d)', x).group(1) for x in m['detected_by']})))")
-  out=$(harness/seedrun.sh $d/patch.diff $ids 2>&1)
+  out=$(harness/seedrun.sh /verif/${d%/}/patch.diff $ids 2>&1)
   if echo "$out" | grep -q "^DETECTED"; then echo "ok      $n  ($(echo "$out" | grep -c '^DETECTED') of $(echo $ids | wc -w) checks)"; else echo "MISSED  $n: $out" | cut -c1-300; fi
 done
